@@ -14,12 +14,13 @@ class C01(FprCheck):
     rule = ("seeded conformers (all shipped SDF conformers are in the pool, plus ~60 embedded SMILES molecules chosen for "
             "planarity, linearity, symmetry, chirality, salts) x seeded option draws from the full product, each with twins: "
             "proper rotations + translations (random unit quaternions and axis-aligned quarter turns), and one reflection "
-            "when stereo is off; plus exact translations (conformer on the 2^-20 grid, one atom on the origin, moved by a grid vector: no round-off, equality required outright). Non-trivial: at least two levels reached; distinct by (molecule, conformer, options, motion).")
+            "when stereo is off; plus exact translations (conformer on the 2^-20 grid, one atom on the origin, moved by a grid vector: no round-off, equality required outright); plus twelve idealised, exactly symmetric planar conformers (2D depictions taken as 3D) under generic rotations, compared without the round-off filter. Non-trivial: at least two levels reached; distinct by (molecule, conformer, options, motion).")
 
     def gen_cases(self):
         rng = self.rng
         n = 40 if self.tier == "quick" else 700
         yield from self.umbrella_cases()
+        yield from self.ideal_cases()
         for ref, ci in self.sample_confs(n):
             for _ in range(2 if self.tier == "quick" else 3):
                 o = MG.gen_opts(rng)
@@ -62,7 +63,39 @@ class C01(FprCheck):
                 self.count("umbrella-diagonal-rotation")
                 yield dict(base, tr=MG.gen_transform(rng, kind="diagonal"))
 
+    def ideal_cases(self):
+        """idealised, exactly symmetric planar conformers (regular rings, equal bonds) against generic rotations.  The property
+        names planar and symmetric conformers explicitly; none of these geometries puts an atom on a decision threshold of the
+        algorithm (their angles are multiples of 30 / 36 / 45 / 60 / 72 / 90 degrees seen from ring atoms; right angles are snapped
+        by the code's EPS), so the two fingerprints are compared without the round-off filter."""
+        rng = self.rng
+        for ref in MG.ideal_refs():
+            for _ in range(1 if self.tier == "quick" else 4):
+                o = MG.gen_opts(rng)
+                o.update(stereo=True, radius_multiplier=rng.choice([1.718, 1.718, 2.5]), level=rng.choice([2, 3, 5]), bits=2 ** 32)
+                base = {"t": "ideal", "ref": ref, "conf": 0, "tr": None, "opts": o, "queries": MG.gen_queries(rng, o, 1)}
+                self.count("ideal-base")
+                yield base
+                for _ in range(2):
+                    self.count("ideal-rotation")
+                    yield dict(base, tr=MG.gen_transform(rng))
+
     def prop(self, case):
+        if case.get("t") == "ideal":
+            if not case.get("tr"):
+                return None
+            m0, c0 = build(dict(case, tr=None))
+            m1, c1 = build(case)
+            a = MG.run_impl(m0, c0, case["opts"], case.get("queries", []))
+            b = MG.run_impl(m1, c1, case["opts"], case.get("queries", []))
+            if "err" in a or "err" in b:
+                return None if a == b else {"key": "motion-changes-error", "what": "base %s, moved %s" % (vlib.short(a, 100), vlib.short(b, 100))}
+            oa, ob = observable(a["ok"]), observable(b["ok"])
+            if oa != ob:
+                lvl = next((i for i, (x, y) in enumerate(zip(oa["levels"], ob["levels"])) if x != y), None)
+                return {"key": "rigid-motion-changes-fingerprint:ideal-symmetric",
+                        "what": "idealised symmetric conformer of %s: fingerprint changed under rotation+translation (first differing level %s)" % (case["ref"]["ideal"], lvl)}
+            return None
         if case.get("t") == "exact":
             if "t" not in case["tr"]:
                 return None
